@@ -1755,7 +1755,7 @@ fn targets(reference: &StackSpec, variant: &StackSpec) -> Vec<Target> {
 }
 
 /// Does `e` belong to a cell that a known finding covers in this pair?
-fn known_cell(reference: &StackSpec, variant: &StackSpec, e: &NE) -> Option<&'static str> {
+fn known_cell(reference: &StackSpec, variant: &StackSpec, e: &NE, vseg: &[&NE]) -> Option<&'static str> {
     if e.m == M::RegDispatch && !variant.cwrap.is_empty() && reference.cwrap.is_empty() {
         return Some("F4b");
     }
@@ -1765,7 +1765,19 @@ fn known_cell(reference: &StackSpec, variant: &StackSpec, e: &NE) -> Option<&'st
     };
     let v = variant.elems.iter().find(|x| x.absent.is_none() && x.idx == idx)?;
     let r = reference.elems.iter().find(|x| x.absent.is_none() && x.idx == idx)?;
+    let new_reload_filter = match &v.filt {
+        Some(vf) => vf.nest.contains(&FW::Reload) && !r.filt.as_ref().map(|f| f.nest.contains(&FW::Reload)).unwrap_or(false),
+        None => false,
+    };
+    let reload_filter = new_reload_filter && e.m == M::EvEnabled && matches!(e.who, Who::Filter(_));
     if v.nest.contains(&LW::Vec1) && !r.nest.contains(&LW::Vec1) {
+        // both a Vec around the filtered layer and a reload handle around its filter: the Vec
+        // swallows the whole Filtered::event_enabled (layer not asked either), the reload handle
+        // only the filter's part (the layer is still asked)
+        let layer_asked = vseg.iter().any(|x| x.who == Who::Layer(idx) && x.m == M::EvEnabled);
+        if new_reload_filter && e.m == M::EvEnabled && layer_asked {
+            return Some("F6");
+        }
         let hit = match e.who {
             Who::Layer(_) => matches!(e.m, M::EvEnabled | M::IdChange),
             _ => e.m == M::EvEnabled,
@@ -1774,13 +1786,24 @@ fn known_cell(reference: &StackSpec, variant: &StackSpec, e: &NE) -> Option<&'st
             return Some("F5");
         }
     }
-    if let (Who::Filter(_), Some(vf)) = (e.who, &v.filt) {
-        let rf_has = r.filt.as_ref().map(|f| f.nest.contains(&FW::Reload)).unwrap_or(false);
-        if e.m == M::EvEnabled && vf.nest.contains(&FW::Reload) && !rf_has {
-            return Some("F6");
-        }
+    if reload_filter {
+        return Some("F6");
     }
     None
+}
+
+/// the wrapper (nest) that a known finding blames for entry `e`
+fn known_wrapper(variant: &StackSpec, e: &NE, fid: &str) -> String {
+    let elem = match e.who {
+        Who::Layer(i) | Who::Filter(i) => variant.elems.iter().find(|x| x.absent.is_none() && x.idx == i),
+        _ => None,
+    };
+    match (fid, elem) {
+        ("F4b", _) => nest_name(&variant.cwrap, CW::name),
+        ("F5", Some(x)) => nest_name(&x.nest, LW::name),
+        ("F6", Some(x)) => x.filt.as_ref().map(|f| nest_name(&f.nest, FW::name)).unwrap_or_default(),
+        _ => "?".into(),
+    }
 }
 
 /// `reload::Subscriber` documents that it does not forward `on_subscribe`; a `None::<F>` filter is
@@ -1857,11 +1880,28 @@ fn compare(
         panic!("HARNESS: reference and variant runs have different numbers of operations");
     }
     let has_empty_vec = variant.elems.iter().any(|e| e.absent == Some(Absent::EmptyVec));
+    let mut f3_armed = false;
     let none_over_psf = variant.elems.iter().any(|e| e.absent == Some(Absent::NoneLayer)) && variant.elems.iter().any(|e| e.filt.is_some());
     for si in 0..a.segs.len().min(b.segs.len()) {
         let (sa, sb) = (&a.segs[si], &b.segs[si]);
         if sa.op != sb.op {
             panic!("HARNESS: operation markers differ: {} vs {}", sa.op, sb.op);
+        }
+        // Known finding F3 (C07): an emission that a per-layer filter rejected and that ended before
+        // on_event/on_new_span leaves that filter's bit set until the next `enabled` pass.  Whether
+        // the next emission runs an `enabled` pass depends on the cached interest, which `None`
+        // above per-layer filters may change (see below) - from that point the two runs are not
+        // comparable any more.
+        if none_over_psf && f3_armed {
+            st.count("runs_cut_after_F3_precondition(None above per-layer filters)", 1);
+            return probs;
+        }
+        for seg in [sa, sb] {
+            let rejected = seg.ents.iter().any(|e| matches!(e.who, Who::Filter(_)) && matches!(e.m, M::Enabled | M::EvEnabled) && e.ret == Some(0));
+            let delivered = seg.ents.iter().any(|e| matches!(e.who, Who::Layer(_)) && matches!(e.m, M::Event | M::NewSpan));
+            if rejected && !delivered {
+                f3_armed = true;
+            }
         }
         let mut ea: Vec<&NE> = sa.ents.iter().filter(|e| !documented_gap(variant, e)).collect();
         let mut eb: Vec<&NE> = sb.ents.iter().filter(|e| !documented_gap(variant, e)).collect();
@@ -1898,26 +1938,26 @@ fn compare(
             });
             return probs;
         }
-        let ka: Vec<&NE> = ea.iter().copied().filter(|e| known_cell(reference, variant, e).is_none()).collect();
-        let kb: Vec<&NE> = eb.iter().copied().filter(|e| known_cell(reference, variant, e).is_none()).collect();
+        let ka: Vec<&NE> = ea.iter().copied().filter(|e| known_cell(reference, variant, e, &eb).is_none()).collect();
+        let kb: Vec<&NE> = eb.iter().copied().filter(|e| known_cell(reference, variant, e, &eb).is_none()).collect();
         if ka == kb {
             // the only differences are entries of known-broken cells
-            let mut per: BTreeMap<(&'static str, String), (usize, usize)> = BTreeMap::new();
+            let mut per: BTreeMap<(&'static str, String, String), (usize, usize)> = BTreeMap::new();
             for e in &ea {
-                if let Some(f) = known_cell(reference, variant, e) {
-                    per.entry((f, e.m.name(e.who).to_string())).or_insert((0, 0)).0 += 1;
+                if let Some(f) = known_cell(reference, variant, e, &eb) {
+                    per.entry((f, e.m.name(e.who).to_string(), known_wrapper(variant, e, f))).or_insert((0, 0)).0 += 1;
                 }
             }
             for e in &eb {
-                if let Some(f) = known_cell(reference, variant, e) {
-                    per.entry((f, e.m.name(e.who).to_string())).or_insert((0, 0)).1 += 1;
+                if let Some(f) = known_cell(reference, variant, e, &eb) {
+                    per.entry((f, e.m.name(e.who).to_string(), known_wrapper(variant, e, f))).or_insert((0, 0)).1 += 1;
                 }
             }
-            for ((f, mname), (na, nb)) in per {
+            for ((f, mname, wname), (na, nb)) in per {
                 if na != nb {
                     probs.push(Problem {
                         fid: Some(f),
-                        cell: format!("(method={mname}, wrapper={wrapper_desc})"),
+                        cell: format!("(method={mname}, wrapper={wname})"),
                         what: format!("{mname}: {na} call(s) without the wrapper, {nb} with it (nothing else differs); {show_dev}"),
                         seg: si,
                     });
@@ -1926,8 +1966,8 @@ fn compare(
             // a *rejecting* answer of the wrapped element was swallowed: even if this operation
             // ends the same way (somebody else vetoed too), hidden per-thread filter state may now
             // differ (known finding F3 of C07) - the rest of the run is not judged
-            if ea.iter().any(|e| known_cell(reference, variant, e).is_some() && e.ret == Some(0))
-                && !eb.iter().any(|e| known_cell(reference, variant, e).is_some() && e.ret == Some(0))
+            if ea.iter().any(|e| known_cell(reference, variant, e, &eb).is_some() && e.ret == Some(0))
+                && !eb.iter().any(|e| known_cell(reference, variant, e, &eb).is_some() && e.ret == Some(0))
             {
                 st.count("runs_cut_after_lost_veto", 1);
                 return probs;
@@ -1936,16 +1976,16 @@ fn compare(
         }
         // a veto that the known-broken cell swallowed explains every consequence in this
         // operation; the rest of the run is not judged (state may legitimately differ)
-        let lost_veto = ea.iter().find_map(|e| match known_cell(reference, variant, e) {
-            Some(f) if e.ret == Some(0) && e.m == M::EvEnabled => Some((f, e.m.name(e.who))),
+        let lost_veto = ea.iter().find_map(|e| match known_cell(reference, variant, e, &eb) {
+            Some(f) if e.ret == Some(0) && e.m == M::EvEnabled => Some((f, e.m.name(e.who), known_wrapper(variant, e, f))),
             _ => None,
         });
-        if let Some((f, mname)) = lost_veto {
-            let swallowed = !eb.iter().any(|e| known_cell(reference, variant, e).is_some() && e.ret == Some(0));
-            if swallowed && known_cell(reference, variant, dev).is_some() {
+        if let Some((f, mname, wname)) = lost_veto {
+            let swallowed = !eb.iter().any(|e| known_cell(reference, variant, e, &eb).is_some() && e.ret == Some(0));
+            if swallowed && known_cell(reference, variant, dev, &eb).is_some() {
                 probs.push(Problem {
                     fid: Some(f),
-                    cell: format!("(method={mname}, wrapper={wrapper_desc})"),
+                    cell: format!("(method={mname}, wrapper={wname})"),
                     what: format!("a veto in {mname} is lost through the wrapper and the event is delivered; {show_dev}"),
                     seg: si,
                 });
@@ -1954,9 +1994,13 @@ fn compare(
             }
         }
         let own = ts.iter().any(|t| t.whos.contains(&dev.who));
+        let blamed = match ts.iter().find(|t| t.whos.contains(&dev.who)) {
+            Some(t) if ts.len() > 1 => format!("{} at position {} [whole variant: {wrapper_desc}]", t.ws, t.pos),
+            _ => wrapper_desc.clone(),
+        };
         probs.push(Problem {
             fid: None,
-            cell: format!("(method={}, wrapper={wrapper_desc})", dev.m.name(dev.who)),
+            cell: format!("(method={}, wrapper={blamed})", dev.m.name(dev.who)),
             what: format!(
                 "{} observes something different with the wrapper; {show_dev}",
                 if own { "the wrapped element" } else { "a neighbour of the wrapped element" }
@@ -2538,7 +2582,7 @@ fn run_cmp(cmp: &Cmp, tab: &Table, proc_: &mut Proc, st: &mut Stats, out: &mut O
             match p.fid {
                 Some(f) => {
                     st.count(&format!("finding_{f}"), 1);
-                    out.set("finding_cells", format!("{f} {}", p.cell.split(" at position").next().unwrap_or(&p.cell)));
+                    out.set("finding_cells", format!("{f} {}", p.cell));
                     out.finding(f, format!("{} - e.g. cell {}: {}", fid_what(f), p.cell, p.what), w);
                 }
                 None => out.violation(format!("cell {}: {}", p.cell, p.what), w),
@@ -2576,7 +2620,7 @@ fn child(args: &Args) {
     let mut st = Stats::default();
     let mut proc_ = Proc::new();
     let sys = sys_cases(thorough);
-    let nrand = args.get_u64("random", args.tier.pick(2000, 50000));
+    let nrand = args.get_u64("random", args.tier.pick(120_000, 1_000_000));
     let only = args.get("only").map(|s| s.to_string());
     let mut alive = true;
     for (i, c) in sys.iter().enumerate() {
@@ -2625,7 +2669,7 @@ fn child(args: &Args) {
 fn parent(args: &Args) {
     let t0 = Instant::now();
     let mut out = Out::new();
-    let shards = args.get_u64("shards", args.tier.pick(32, 384));
+    let shards = args.get_u64("shards", args.tier.pick(384, 2560));
     let mut spec = ChildSpec::new("mix", shards).timeout(900);
     if let Some(r) = args.get("random") {
         spec = spec.arg("random", r);
@@ -2649,10 +2693,14 @@ fn parent(args: &Args) {
                 "query methods (register_callsite, enabled, event_enabled) are judged for at-most/exactly-once but not for inner-before-outer order: Layered deliberately asks the outer layer first".into(),
                 "None::<L> as the ONLY element of a Registry stack is not judged (the repository's tests pin 'just a None means everything is off'); with any neighbour it must be invisible".into(),
                 "reload::Subscriber around a layer: on_subscribe and downcasting are documented as unsupported and are masked".into(),
+                "Identity interposed (and_then) around a per-layer-FILTERED layer is not judged: Layered documents that a tree with one filtered and one unfiltered branch is deliberately classified as unfiltered, which changes how interests and hints are combined (C07/C08 territory)".into(),
+                "None::<L> added to a stack whose real layers are ALL per-layer-filtered is not judged (None is then the only unfiltered member and per-layer-filter semantics keep emissions globally enabled); None above a stack containing per-layer filters may turn a cached `never` into `sometimes` (Layered::pick_interest, documented): there the number of `enabled` queries is not compared, everything else is".into(),
+                "with_filter(None::<F>) is compared with with_filter(accept-everything recording filter): the layer and its neighbours must observe the same".into(),
+                "after a rejecting event_enabled answer was swallowed by a known-broken cell (F5, F6) the rest of that run is not judged: hidden per-thread filter state may differ (finding F3 of C07)".into(),
                 "one live Dispatch at a time, one fresh thread per stack run; both sides of a pair use callsites of the same class in the same cache state (both fresh, or the same already-registered callsite)".into(),
             ],
-            min_evals: args.tier.pick(20_000, 400_000),
-            min_distinct: args.tier.pick(1_500, 10_000),
+            min_evals: args.tier.pick(900_000, 8_000_000),
+            min_distinct: args.tier.pick(250_000, 1_700_000),
             exhaustive: false,
             extra,
         },
